@@ -79,17 +79,20 @@ Proof.
   destruct r; cbn [fst]; try exact H. now rewrite IH.
 Qed.
 
-Lemma dr_fill : forall fuel dl w, w_drained (fst (fill_packet_reader fuel dl w)) = w_drained w.
+Lemma dr_fill_go : forall fuel y dl w, w_drained (fst (fill_go fuel y dl w)) = w_drained w.
 Proof.
-  induction fuel as [|f IH]; intros dl w; cbn [fill_packet_reader]; [reflexivity|].
+  induction fuel as [|f IH]; intros y dl w; cbn [fill_go]; [reflexivity|].
   destruct (packet_available _); [reflexivity|].
   destruct (receive_buffer (s_reader (w_sess w))) as [r' ow]. destruct ow as [win|]; [|reflexivity].
   destruct (N.eqb win 0); [reflexivity|].
+  destruct (timer_fired y dl _); [reflexivity|].
   match goal with |- context [io_read win dl ?x] => destruct (io_read win dl x) as [w1 r] eqn:E; pose proof (dr_io_read win dl x) as H end.
   rewrite E in H. cbn [fst w_drained upd_sess] in H.
   destruct r as [d| | |]; cbn [fst]; try exact H. destruct d as [|x t]; [exact H|].
   rewrite IH. exact H.
 Qed.
+Lemma dr_fill : forall fuel dl w, w_drained (fst (fill_packet_reader fuel dl w)) = w_drained w.
+Proof. intros. apply dr_fill_go. Qed.
 
 Lemma dr_direct_send : forall fuel bs w, w_drained (fst (direct_send fuel bs w)) = w_drained w.
 Proof.
